@@ -145,6 +145,11 @@ class RecurrenceNetwork(RecurrencePlot, Network):
                              node_weights=node_weights,
                              silence_level=silence_level)
 
+    def __cache_state__(self):
+        return (RecurrencePlot.__cache_state__(self)
+                + (getattr(self, "directed", None),
+                   getattr(self, "_mut_A", 0)))
+
     def __str__(self):
         """
         Returns a string representation.
